@@ -126,7 +126,7 @@ def r4_observer_snapshots(ctx):
     ctx.rule('C06.R4', 'P7: the observer chain handed to a nested blueprint is a clone taken in the arm that visits the nested blueprint (observers '
              'registered later in the parent do not run for routes of the nested blueprint).')
     chain_snapshots(ctx, 'C06.R4', 'current_observer_chain', 'observer chain')
-    chain_always_pushed(ctx, 'C06.R4', ['process_error_observer'], 'observer chain')
+    chain_always_pushed(ctx, 'C06.R4', ['ErrorObserver'], 'observer chain')
 
 
 def check(ctx):
